@@ -505,6 +505,7 @@ func init() {
 	register(&PropertySpec{
 		ID: "C08",
 		Rules: []RuleSpec{
+			{"sum-over-set", "a pooled transaction gets into the list of transactions to be replaced once, however often it is named: every append to a local slice that the function later sums over (fees to outbid, fees credited to the payer) sits behind a membership test on that slice", ruleSumOverSet},
 			{"err-discipline", "no error returned by a function of the module is discarded (called as a statement or assigned to _) in the mempool, except at the tabled sites whose reason is recorded: a dropped error is a dropped check or a lost write", func(c *Ctx) { ruleErrDiscipline(c, "pkg/core/mempool") }},
 			{"absent-is-nil", "a lookup that returns nil for a missing key and may return a stored empty value (dao.GetStorageItem, BoltDB bucket Get) is never tested for absence by length", func(c *Ctx) { ruleAbsentIsNil(c, "pkg/core/mempool") }},
 			{"unsigned-window", "an ordering comparison one operand of which is the difference of two non-constant unsigned values (a height minus a window) is made only where the function tests the order of those two values: otherwise the difference wraps around and \"older than the retained window\" holds for every height of a short chain", func(c *Ctx) { ruleUnsignedWindow(c, "pkg/core/mempool") }},
